@@ -18,6 +18,11 @@ CLAIMED["C01"] = dict(
    text="Exploration: 12k (quick) / 150k (thorough) generated core programs, each run at top level, inside a function, inside a nested closure and after 5/40/120(/200) extra live locals, plus five re-embeddings of the observed expression (call argument, list element, map value, interpolation, condition), are compared (stdout, rendered result, Ok/Err class) with a tree-walking reference interpreter written from the language guide; operator trees of depth 2 over all 14 binary operators x unary wrappers x 9 operand kinds are enumerated (quick: 1 in 8, thorough: all 254k). Sampled above those bounds; no absence proof.",
    note="Trusts the reference model M (written from the guide, calibrated on documented examples) and Rust's f64 arithmetic/formatting. Cases where the guide is silent are dropped as 'unjudged' (counted). Known shape F25 is excluded by construction.",
    design="§4 C01")
+CLAIMED["C02"] = dict(
+   technique="differential property-based testing against an independent reference interpreter with coroutine-modelled generators; proptest-driven scenario generation, library + AST delta shrinking",
+   text="Exploration: 8k (quick) / 120k (thorough) generated programs combining function signatures (positional, nested-unpack with ellipsis, defaults reading outer variables, variadic, ignored), call forms (too few .. too many arguments, packed runs, empty packs, piped chains, instance calls with self), recursion, capture-by-copy with reassignment and shared containers, closure factories, nested closures and generators consumed by for / unpacking / to_tuple / pause-and-resume / packed forwarding; each program also runs inside a function and a nested closure; stdout (bodies print their bound arguments and every yield/resume), result and Ok/Err class must equal the reference interpreter's. Sampled; no absence proof.",
+   note="Trusts M (binding rules transcribed from the guide's 'Functions' and 'Generators' chapters; generators are coroutines with strict hand-off). Known shape F27 excluded by construction; error texts not compared.",
+   design="§4 C02")
 NOT_YET = {}
 props=[json.loads(l) for l in open('/verif/properties.jsonl')]
 checks=[]; na=[]
